@@ -380,10 +380,15 @@ impl<F: Field> Polynomial<F, LagrangeCoeff> {
     /// Rotates the values in a `LagrangeCoeff` polynomial by `Rotation`
     pub fn rotate(&self, rotation: Rotation) -> Polynomial<F, LagrangeCoeff> {
         let mut values = self.values.clone();
-        if rotation.0 < 0 {
-            values.rotate_right((-rotation.0) as usize);
-        } else {
-            values.rotate_left(rotation.0 as usize);
+        // Rotations are taken modulo the size of the domain.
+        let n = values.len();
+        if n > 0 {
+            let by = rotation.0.unsigned_abs() as usize % n;
+            if rotation.0 < 0 {
+                values.rotate_right(by);
+            } else {
+                values.rotate_left(by);
+            }
         }
         Polynomial {
             values,
